@@ -26,13 +26,16 @@ import (
 const (
 	legacyQuick, legacyThorough = 2000, 500000
 	extQuick, extThorough       = 1200, 120000
+	r4Quick, r4Thorough         = 1500, 90000 // round 4: router+names, standalone+stateful, router+stateful (round-robin)
 )
 
 func init() {
 	vlib.Register(&vlib.Prop{
 		ID:    "C13",
 		Level: "exploration",
-		Cases: func(tier string) int { return vlib.TierN(tier, legacyQuick+extQuick, legacyThorough+extThorough) },
+		Cases: func(tier string) int {
+			return vlib.TierN(tier, legacyQuick+extQuick+r4Quick, legacyThorough+extThorough+r4Thorough)
+		},
 		Rule: "case = one PoisonQueue instance (constructor without filter, or PoisonQueueWithFilter with one of 7 predicates: all, none, errors.Is sentinel, " +
 			"its negation, errors.As type, hash of the text, not context.Canceled) with a random poison topic, 1..6 messages (random payload, 0..4 random metadata keys, " +
 			"40%: some of the four poison keys pre-set) x 1..4 scripted attempts each (success or one of 21 error shapes: plain, pkg/errors, sentinel, fmt/pkg/deep wrapped, " +
@@ -40,7 +43,7 @@ func init() {
 			"poison publisher accepts or fails with a plain/sentinel/typed error). Base classes (first 2000 quick / 500000 thorough indices): even case indices run the " +
 			"middleware stand-alone (attempts repeated on the same message " +
 			"until nil is returned), odd ones inside a running Router (1..2 handlers with or without publisher, middleware at router or handler level, scripted subscriber " +
-			"redelivering after every Nack, messages delivered concurrently or in sequence). Extended classes (the remaining indices, round-robin): " +
+			"redelivering after every Nack, messages delivered concurrently or in sequence). Extended classes (the next 1200 quick / 120000 thorough indices, round-robin): " +
 			"'standalone+ctx' and 'router+ctx' = the base classes where application code additionally stores foreign values in the message context (per message 0..3 " +
 			"injections x 1..3 key/value pairs; place: by the emitter/caller, in a subscriber decorator added after the Router's own, in a middleware above or below the " +
 			"poison middleware (before calling / after the wrapped function returned), in the handler before it returns; key: plain string spelled like one of the Router's " +
@@ -50,6 +53,16 @@ func init() {
 			"'router+shared' = ONE wrapped function guarded := spy(pq(handler)) registered as the handler function of 2..3 handlers of one Router (distinct names; " +
 			"topics/subscribers distinct or partly shared), the first messages spread over all handlers, 35%: 1..2 further messages dispatched directly into the same " +
 			"guarded function without any Router context (expected names: empty), with or without foreign context values. " +
+			"Round-4 classes (the last 1500 quick / 90000 thorough indices, round-robin): " +
+			"'router+names' = the Router class with 1..3 handlers whose names are unusual but legal: 55%: one handler registered under the empty name \"\", 20%: one handler " +
+			"consuming the topic \"\", publisher per handler drawn from {fmt.Stringer with a name, fmt.Stringer whose String() is \"\", plain pointer type, plain value type, " +
+			"none (AddNoPublisherHandler), a publisher with the empty publish topic}, subscriber from {Stringer with a name, Stringer whose String() is \"\", pointer type, value type}, " +
+			"subscribers/topics shared as in 'router+ctx', 30%: foreign context values; expected poison names = exactly what the handler was registered with, empty where it is empty; " +
+			"'standalone+stateful' and 'router+stateful' = the base classes with a filter that has memory, drawn from {answers scripted per call (3..24 random answers, cyclic), " +
+			"every n-th call, yes on the n-th failure then forget the counter, the same counted per error text, only the first k calls, not the first k calls, a sentinel criterion " +
+			"with a budget, alternating}; every answer the filter gives is recorded with the handler invocation whose error it decides (per-attempt tagged error wrappers, 50%, allow " +
+			"concurrent deliveries; otherwise one failure at a time) and the model is evaluated over those answers: all yes -> poison rows, all no -> pass-through row, " +
+			"contradicting answers for one failure (or none) -> the row matching what reached the poison publisher is demanded in full, so that success without a publish is never allowed. " +
 			"Every attempt is one evaluation of the model; a case is non-trivial when at least " +
 			"one attempt failed with an error the filter accepts (the poison publisher was due); distinct = distinct (mode, filter, registration, topology, per-attempt " +
 			"(error shape, outputs, filter verdict, publisher outcome, settlement), per-message context-injection shape) signatures.",
@@ -59,7 +72,11 @@ func init() {
 				"values that application code stores under keys of its own - whatever they are spelled like - are not the Router's and are expected to leave the poison metadata untouched",
 			"application code only derives from the context the message carries (context.WithValue on msg.Context()); it never replaces it, so the Router's values stay reachable",
 			"inside a Router the expected names are those the handler was registered with: handler name, subscribe topic, subscriber name = String() of a fmt.Stringer subscriber, else its type name without the pointer marker (godoc of SubscriberNameFromCtx: 'kafka.Subscriber')",
-			"filters are pure functions of the error; the expected verdict is computed from the handler's error at the instant the handler returns",
+			"base and extended classes: filters are pure functions of the error; the expected verdict is computed from the handler's error at the instant the handler returns",
+			"'+stateful' classes: the filter is user code with memory; how often the middleware consults it per failure is not specified and not judged (counted); the verdict for a failure " +
+				"is the set of answers the filter gave between the handler's return and the middleware's return for that invocation; a failure with contradicting answers may take either row of the model, but one of them completely",
+			"'router+names': an empty name is a name - the expected value of handler_poisoned / subscriber_poisoned / topic_poisoned is the empty string exactly where the handler name / " +
+				"the subscriber's String() / the subscribe topic is empty, and the registered value everywhere else, whatever the other names (incl. the publisher's) are",
 			"outputs returned together with an accepted error are not judged (the statement is silent on them)",
 			"a blocked call is decided by the quiescence detector, not by a time-out",
 		},
@@ -92,8 +109,10 @@ type attemptObs struct {
 	spyRet  uint64
 
 	// poison publisher boundary
-	calls       []*vlib.PubCall
-	filterCalls int
+	calls []*vlib.PubCall
+
+	// filter boundary: the answers the filter gave while this invocation's error was being decided
+	answers []bool
 }
 
 type msgState struct {
@@ -115,6 +134,12 @@ type world struct {
 	stray       []string
 	filterCalls int
 	panics      []string
+
+	// filters with memory (classes '+stateful'): the expected verdict is what the filter answered
+	stateful           bool
+	filterNilErr       int // filter calls with a nil error
+	filterUnattributed int // filter calls while no handler invocation was between "handler returned" and "middleware returned"
+	filterAmbiguous    int // filter calls that could belong to more than one handler invocation
 }
 
 // current returns the latest attempt of the message with this UUID (caller holds mu).
@@ -159,7 +184,12 @@ func (w *world) handler(msg *message.Message) ([]*message.Message, error) {
 	a.err = ap.Err
 	if ap.Err != nil {
 		a.reason = ap.Err.Error()
-		a.accept = w.pred(ap.Err)
+		if !w.stateful {
+			a.accept = w.pred(ap.Err) // pure filters: the reference verdict
+		}
+		if t, ok := ap.Err.(*tagErr); ok {
+			t.obs = a
+		}
 	}
 	a.returned = true
 	a.ret = vlib.Now()
@@ -184,12 +214,22 @@ func (w *world) spy(h message.HandlerFunc) message.HandlerFunc {
 	}
 }
 
-// filter wraps the predicate handed to PoisonQueueWithFilter (calls are counted, not judged).
+// filter wraps the predicate handed to PoisonQueueWithFilter. How often it is called is counted, not
+// judged; every answer is recorded with the handler invocation whose error it decides (a filter with
+// memory - its state is guarded by mu - need not answer the same way twice).
 func (w *world) filter(err error) bool {
 	w.mu.Lock()
+	defer w.mu.Unlock()
 	w.filterCalls++
-	w.mu.Unlock()
-	return w.pred(err)
+	if err == nil {
+		w.filterNilErr++
+	}
+	a := w.attributeFilterCall(err)
+	ans := w.pred(err)
+	if a != nil {
+		a.answers = append(a.answers, ans)
+	}
+	return ans
 }
 
 // attribute finds the attempt a Publish call belongs to (caller holds mu).
@@ -251,13 +291,16 @@ type config struct {
 	Reg         string `json:"registration,omitempty"`
 	Concurrent  bool   `json:"concurrent,omitempty"`
 	CtxValues   bool   `json:"foreign_ctx_values,omitempty"`
+	FilterParam string `json:"filter_param,omitempty"`  // '+stateful': parameters of the filter with memory
+	TaggedErrs  bool   `json:"tagged_errors,omitempty"` // '+stateful': every planned error is wrapped in a per-attempt *tagErr
 	Handlers    []hcfg `json:"handlers,omitempty"`
 }
 
 type hcfg struct {
 	Name, Topic, Sub string
 	WithPublisher    bool
-	SubKind          string `json:",omitempty"` // how the Router names the subscriber: stringer | ptr-type | value-type
+	SubKind          string `json:",omitempty"` // how the Router names the subscriber: stringer | empty-stringer | ptr-type | value-type
+	PubKind          string `json:",omitempty"` // 'router+names': stringer | empty-stringer | ptr-type | value-type | none | empty-publish-topic
 	SubOf            int    // index of the handler whose subscriber object this one uses (its own index = its own)
 }
 
@@ -271,10 +314,25 @@ func run(e *vlib.Env) vlib.Result {
 	r := e.R
 	legacyN := vlib.TierN(e.Tier, legacyQuick, legacyThorough)
 	ext := e.Idx >= legacyN
+	r4 := e.Idx >= legacyN+vlib.TierN(e.Tier, extQuick, extThorough)
 	cfg := config{Mode: "standalone", Filter: filterKinds[r.Intn(len(filterKinds))]}
+	stateful := false
 	if !ext {
 		if e.Idx%2 == 1 {
 			cfg.Mode = "router"
+		}
+	} else if r4 {
+		switch e.Idx % 3 {
+		case 0:
+			cfg.Mode, cfg.Variant, cfg.CtxValues = "router", "names", r.Chance(0.3)
+		case 1:
+			cfg.Variant, stateful = "stateful", true
+		default:
+			cfg.Mode, cfg.Variant, stateful = "router", "stateful", true
+		}
+		if stateful {
+			cfg.Filter = statefulKinds[r.Intn(len(statefulKinds))]
+			cfg.TaggedErrs = r.Bool()
 		}
 	} else {
 		switch (e.Idx - legacyN) % 3 {
@@ -293,8 +351,12 @@ func run(e *vlib.Env) vlib.Result {
 	}
 
 	sent := errors.New(e.ID() + " sentinel")
-	w := &world{msgs: map[string]*msgState{}, standalone: cfg.Mode == "standalone"}
-	w.pred = predicate(cfg.Filter, sent, e.ID())
+	w := &world{msgs: map[string]*msgState{}, standalone: cfg.Mode == "standalone", stateful: stateful}
+	if stateful {
+		w.pred, cfg.FilterParam = statefulPredicate(cfg.Filter, r, sent)
+	} else {
+		w.pred = predicate(cfg.Filter, sent, e.ID())
+	}
 
 	ppub := w.poisonPub(e.ID() + "-ppub")
 	var pq message.HandlerMiddleware
@@ -334,6 +396,11 @@ func run(e *vlib.Env) vlib.Result {
 			for i := range cfg.Handlers {
 				hc := &cfg.Handlers[i]
 				hc.SubKind = subKinds[r.Intn(len(subKinds))]
+				if cfg.Variant == "names" {
+					hc.SubKind = namesSubKinds[r.Intn(len(namesSubKinds))]
+					hc.PubKind = namesPubKinds[r.Intn(len(namesPubKinds))]
+					hc.WithPublisher = hc.PubKind != pubNone
+				}
 				if i > 0 {
 					switch r.Intn(5) {
 					case 0: // same subscriber object as handler 0, another topic
@@ -343,6 +410,19 @@ func run(e *vlib.Env) vlib.Result {
 					}
 				}
 			}
+		}
+		if cfg.Variant == "names" {
+			// handler names are unique, so at most one handler is the anonymous one; at most one consumes the topic ""
+			if r.Chance(0.55) {
+				cfg.Handlers[r.Intn(nh)].Name = ""
+			}
+			if r.Chance(0.2) {
+				cfg.Handlers[r.Intn(nh)].Topic = ""
+			}
+		}
+		if stateful && !cfg.TaggedErrs {
+			// untagged errors (shared sentinels ...): one failure at a time, so that every answer of the filter has one owner
+			cfg.Concurrent = false
 		}
 	}
 	allowOuts := func(h int) bool { return cfg.Mode == "standalone" || h < 0 || cfg.Handlers[h].WithPublisher }
@@ -370,6 +450,13 @@ func run(e *vlib.Env) vlib.Result {
 			force = i // every handler that shares the wrapped function gets a message
 		}
 		p := genMsg(r, e.ID(), i, sent, nh, force, allowOuts)
+		if cfg.TaggedErrs {
+			for k := range p.Attempts {
+				if ap := &p.Attempts[k]; ap.Err != nil {
+					ap.Err = &tagErr{inner: ap.Err, tag: fmt.Sprintf("%s-a%d", p.UUID, k)}
+				}
+			}
+		}
 		ms := &msgState{plan: p}
 		w.msgs[p.UUID] = ms
 		w.order = append(w.order, ms)
@@ -545,7 +632,11 @@ func runRouter(res *vlib.Result, w *world, pq message.HandlerMiddleware, cfg *co
 		var h *message.Handler
 		if hc.WithPublisher {
 			outPubs[i] = &vlib.Pub{Name: hc.Name + "-out"}
-			h = router.AddHandler(hc.Name, hc.Topic, msubs[i], hc.Topic+"-out", outPubs[i], hf)
+			outTopic := hc.Topic + "-out"
+			if hc.PubKind == pubEmptyTopic {
+				outTopic = ""
+			}
+			h = router.AddHandler(hc.Name, hc.Topic, msubs[i], outTopic, wrapPub(hc.PubKind, outPubs[i]), hf)
 		} else {
 			h = router.AddNoPublisherHandler(hc.Name, hc.Topic, msubs[i], func(msg *message.Message) error {
 				_, err := hf(msg)
